@@ -418,3 +418,319 @@ Proof. exact rh_nonvacuous. Qed.
 Print Assumptions C01_reward_conservation_history.
 Print Assumptions C01_reward_delivered_at_report.
 Print Assumptions C01_reward_final_report.
+
+(* =====================================================================================================
+   Fourth end-to-end instance (supports C01, C07, C08, C14, C16, C20): MultiCorridor of
+   abmarl/examples/sim/multi_corridor.py -- the simulation the library's own tests run under every
+   manager and wrapper.  Ctl/Corridor.v transcribes reset (np.random.choice(end-1, n, False) as an
+   oracle stream inside the state), step (LEFT / STAY / RIGHT, the three penalty rules, + end^2 on
+   arrival, an arrived agent is NOT written into the array), get_obs, the read-AND-reset get_reward,
+   get_done, get_all_done as `corridor_sim end n : simulation cstate cobs unit Z` (all agents learn).
+   Vocabulary (Proofs/Corridor_proofs.v):
+     cinv end n s      n positions in [0, end-1], n reward entries, end cells, and a cell names agent j
+                       exactly when j stands there and has not arrived
+     adm end n d       d is a possible result of the reset draw: n distinct cells below end-1
+     co_bad s          the flag: an exception escaped from the simulation (IndexError of
+                       corridor[position + 1] at position end-1 = the error arm; unknown agent;
+                       impossible draw)
+     same_seed s1 s2   the random generators of the two objects are in the same state
+     polite t          the caller answers only for agents the previous answer asked to act
+                       (observation given, not reported done), without duplicate keys
+   ===================================================================================================== *)
+From Abm Require Import Spaces.Flatten Ctl.Super Ctl.Comms Ctl.Wrappers Ctl.Stack Ctl.Trainer
+     Ctl.Corridor Proofs.Stack_proofs Proofs.Corridor_proofs.
+Open Scope Z_scope.
+
+(* the invariant is established by EVERY successful reset from ANY state (which also clears the flag
+   and leaves nobody arrived) and kept by EVERY step: any keys, any action values, also an arrived
+   agent walking back, also the arms that raise *)
+Theorem C01_corridor_inv : forall cend n,
+  (forall s, adm cend n (co_draws s (co_ep s)) ->
+     cinv cend n (co_reset cend n s) /\ co_bad (co_reset cend n s) = false /\
+     co_pos (co_reset cend n s) = co_draws s (co_ep s) /\ co_rew (co_reset cend n s) = repeat 0 n /\
+     (forall i, co_done cend (co_reset cend n s) i = false) /\
+     co_draws (co_reset cend n s) = co_draws s /\ co_ep (co_reset cend n s) = S (co_ep s)) /\
+  (forall s, cinv cend n s -> cinv cend n (co_reset cend n s)) /\
+  (forall s acts, cinv cend n s -> cinv cend n (co_step cend s acts)).
+Proof.
+  exact (fun cend n => conj (co_reset_ok cend n) (conj (co_reset_cinv cend n)
+                         (fun s acts => co_step_cinv cend n acts s))).
+Qed.
+Print Assumptions C01_corridor_inv.
+
+(* the invariant in words: every agent has a position in the corridor and a reward entry; agents
+   that have not arrived stand on distinct cells and are in the array; an arrived agent is in no
+   cell; whoever the array names stands there *)
+Theorem C01_corridor_inv_readable : forall cend n s, cinv cend n s ->
+  (forall i, (i < n)%nat -> exists p r, nth_error (co_pos s) i = Some p /\ 0 <= p <= cend - 1 /\
+                                        nth_error (co_rew s) i = Some r) /\
+  (forall i j p, nth_error (co_pos s) i = Some p -> nth_error (co_pos s) j = Some p ->
+                 p < cend - 1 -> i = j) /\
+  (forall j p, nth_error (co_pos s) j = Some p -> p < cend - 1 -> cell s p = Some (Some j)) /\
+  (forall j, nth_error (co_pos s) j = Some (cend - 1) -> forall c, cell s c <> Some (Some j)) /\
+  (forall c j, cell s c = Some (Some j) -> nth_error (co_pos s) j = Some c /\ 0 <= c < cend - 1).
+Proof. exact cinv_readable. Qed.
+Print Assumptions C01_corridor_inv_readable.
+
+(* under the invariant one iteration of step's loop raises exactly for an unknown agent and for an
+   agent that has arrived and moves RIGHT *)
+Theorem C01_corridor_error_arm_iff : forall cend n s i a, cinv cend n s -> co_bad s = false ->
+  (co_bad (step_one cend s (i, a)) = true <-> (n <= i)%nat \/ (a = 2 /\ co_done cend s i = true)).
+Proof. exact step_one_error_arm. Qed.
+Print Assumptions C01_corridor_error_arm_iff.
+
+(* a step whose keys are distinct known agents that have not arrived raises nothing *)
+Theorem C01_corridor_step_raises_nothing : forall cend n l s,
+  cinv cend n s /\ co_bad s = false -> NoDup (map fst l) ->
+  (forall a, In a (map fst l) -> (a < n)%nat /\ co_done cend s a = false) ->
+  cinv cend n (co_step cend s l) /\ co_bad (co_step cend s l) = false.
+Proof. exact co_step_good. Qed.
+Print Assumptions C01_corridor_step_raises_nothing.
+
+(* get_obs / get_reward, in any number and order, leave positions, array and generator alone; hence
+   get_done / get_all_done / get_info are pure: the hypothesis of the turn-based, dynamic-order and
+   trainer theorems *)
+Theorem C01_corridor_getters_pure : forall cend n s s', greach (corridor_sim cend n) s s' ->
+  (co_pos s' = co_pos s /\ co_arr s' = co_arr s /\ length (co_rew s') = length (co_rew s) /\
+   co_draws s' = co_draws s /\ co_ep s' = co_ep s) /\
+  (forall a, co_done cend s' a = co_done cend s a) /\ co_all cend s' = co_all cend s /\
+  (forall a, sim_info (corridor_sim cend n) s' a = sim_info (corridor_sim cend n) s a).
+Proof. exact (fun cend n s s' G => conj (co_greach_frame cend n s s' G) (corridor_getters_pure cend n s s' G)). Qed.
+Print Assumptions C01_corridor_getters_pure.
+
+Theorem C01_corridor_done_stable : forall cend n, done_stable (corridor_sim cend n).
+Proof. exact corridor_done_stable. Qed.
+Print Assumptions C01_corridor_done_stable.
+
+(* get_reward reads AND resets: every accrued amount is handed out once *)
+Theorem C01_corridor_reward_read_once : forall s i x,
+  co_bad s = false -> nth_error (co_rew s) i = Some x ->
+  fst (co_reward s i) = x /\ nth_error (co_rew (snd (co_reward s i))) i = Some 0 /\
+  (forall j, j <> i -> nth_error (co_rew (snd (co_reward s i))) j = nth_error (co_rew s) j) /\
+  co_bad (snd (co_reward s i)) = false.
+Proof. exact co_reward_read_once. Qed.
+Print Assumptions C01_corridor_reward_read_once.
+
+(* the invariant in every simulation state any manager (all-step, turn-based, dynamic order, the
+   pre-repair turn manager) reaches by ANY call list, in or out of protocol, any draws *)
+Theorem C01_corridor_inv_reachable : forall cend n k s0 cs, cinv cend n s0 ->
+  cinv cend n (m_sim (snd (run (corridor_sim cend n) k (init s0) cs))) /\
+  forall e, In e (trace (corridor_sim cend n) k (init s0) Fresh cs) ->
+    cinv cend n (m_sim (te_pre e)) /\ cinv cend n (m_sim (te_post e)).
+Proof. exact corridor_cinv_reachable. Qed.
+Print Assumptions C01_corridor_inv_reachable.
+
+(* C01 / C07 along in-protocol histories of the corridor: `done_stable` discharged *)
+Theorem C01_corridor_invariants_all : forall cend n s0 cs,
+  in_protocol (trace (corridor_sim cend n) MAll (init s0) Fresh cs) ->
+  forall e, In e (trace (corridor_sim cend n) MAll (init s0) Fresh cs) ->
+    (te_ph e <> Fresh -> incl (nonlearning (corridor_sim cend n)) (m_done (te_pre e))) /\
+    do_call (corridor_sim cend n) MAll (te_pre e) (te_call e) = (te_resp e, te_post e) /\
+    (cinv cend n s0 -> cinv cend n (m_sim (te_pre e)) /\ cinv cend n (m_sim (te_post e))) /\
+    NoDup (ep_dones (trace (corridor_sim cend n) MAll (init s0) Fresh cs) []).
+Proof. exact corridor_invariants_all. Qed.
+Print Assumptions C01_corridor_invariants_all.
+
+Theorem C01_corridor_invariants_turn : forall cend n s0 cs,
+  in_protocol (trace (corridor_sim cend n) MTurn (init s0) Fresh cs) ->
+  forall e, In e (trace (corridor_sim cend n) MTurn (init s0) Fresh cs) ->
+    (te_ph e = Live -> tinv (corridor_sim cend n) (te_pre e)) /\
+    do_call (corridor_sim cend n) MTurn (te_pre e) (te_call e) = (te_resp e, te_post e) /\
+    (cinv cend n s0 -> cinv cend n (m_sim (te_pre e)) /\ cinv cend n (m_sim (te_post e))) /\
+    NoDup (ep_dones (trace (corridor_sim cend n) MTurn (init s0) Fresh cs) []).
+Proof. exact corridor_invariants_turn. Qed.
+Print Assumptions C01_corridor_invariants_turn.
+
+Theorem C01_corridor_history_steps_turn : forall cend n s0 cs,
+  in_protocol (trace (corridor_sim cend n) MTurn (init s0) Fresh cs) ->
+  forall e acts sh, In e (trace (corridor_sim cend n) MTurn (init s0) Fresh cs) ->
+    te_call e = CStep acts sh ->
+    match te_resp e with
+    | ROut o =>
+        wfo o /\ NoDup (keys o) /\ (forall a, In a (keys o) -> ~ In a (m_done (te_pre e))) /\
+        ~ submits_done (m_done (te_pre e)) acts /\ incl (m_done (te_pre e)) (m_done (te_post e)) /\
+        greach (corridor_sim cend n) (co_step cend (m_sim (te_pre e)) acts) (m_sim (te_post e)) /\
+        o_all o = co_all cend (co_step cend (m_sim (te_pre e)) acts)
+                  || all_in (corridor_sim cend n) (m_done (te_post e)) /\
+        (o_all o = false -> forall a, In (a, true) (o_done o) -> In a (m_done (te_post e)))
+    | RObs _ => False
+    | _ => te_post e = te_pre e
+    end.
+Proof. exact corridor_steps_turn. Qed.
+Print Assumptions C01_corridor_history_steps_turn.
+
+(* THE ERROR ARM.  An in-protocol history (steps only while an episode runs) whose caller answers
+   only for the agents it was asked for, under the all-step or the turn-based manager, from ANY start
+   state whose flag is clear, with admissible reset draws: no call raises; the invariant holds from the first reset on; and every agent that acts in a step is known and has NOT arrived in the
+   state the step starts from -- `self.corridor[agent.position + 1]` with position = end-1 is never
+   evaluated.  (Without `polite` the turn-based manager accepts an action for an agent that arrived
+   on its own turn and has not been reported yet: IndexError.) *)
+Theorem C01_corridor_no_error_arm : forall cend n k s0 cs, k = MAll \/ k = MTurn ->
+  co_bad s0 = false -> (forall j, admb cend n (co_draws s0 j) = true) ->
+  in_protocol (trace (corridor_sim cend n) k (init s0) Fresh cs) ->
+  polite [] (trace (corridor_sim cend n) k (init s0) Fresh cs) ->
+  forall e, In e (trace (corridor_sim cend n) k (init s0) Fresh cs) ->
+    co_bad (m_sim (te_pre e)) = false /\ co_bad (m_sim (te_post e)) = false /\
+    (te_ph e <> Fresh -> cinv cend n (m_sim (te_pre e))) /\
+    (next_phase (te_ph e) (te_resp e) <> Fresh -> cinv cend n (m_sim (te_post e))) /\
+    forall acts sh, te_call e = CStep acts sh ->
+      forall a, In a (map fst acts) \/ In a (map fst sh) ->
+        (a < n)%nat /\ co_done cend (m_sim (te_pre e)) a = false.
+Proof. exact corridor_no_error_arm. Qed.
+Print Assumptions C01_corridor_no_error_arm.
+
+(* the extracted checker 2502, snapshot clauses (2511 flag, 2512 shape, 2513 array <-> positions, 2514
+   distinct cells): `snap_chk` answers 0 on every state with the invariant, hence on every record of
+   the model's own run (wire entry 2501 = run_snap) of a polite in-protocol history that starts with a
+   reset.  (The response clauses 2515-2522 have no model theorem; see design/E2E.md.) *)
+Theorem C01_corridor_snap_chk_complete : forall cend n s,
+  0 <= cend -> cinv cend n s -> snap_chk cend n (snap_of s) = 0.
+Proof. exact snap_chk_complete. Qed.
+Print Assumptions C01_corridor_snap_chk_complete.
+
+Theorem C01_corridor_chk_snapshots_partial : forall cend n k s0 cs, 0 <= cend -> k = MAll \/ k = MTurn ->
+  co_bad s0 = false -> (forall j, admb cend n (co_draws s0 j) = true) -> (k = MTurn -> n <> O) ->
+  in_protocol (trace (corridor_sim cend n) k (init s0) Fresh (CReset :: cs)) ->
+  polite [] (trace (corridor_sim cend n) k (init s0) Fresh (CReset :: cs)) ->
+  forall r sn, In (r, sn) (fst (run_snap (corridor_sim cend n) (fun s => s) k (init s0) (CReset :: cs))) ->
+    sn_bad sn = false /\ snap_chk cend n sn = 0.
+Proof. exact corridor_chk_snapshots. Qed.
+Print Assumptions C01_corridor_chk_snapshots_partial.
+
+(* C16_never_fails over the corridor: episode generation never acts for a finished agent *)
+Theorem C01_corridor_trainer_never_fails :
+  forall PS cend n pmap (pol_act : PS -> nat -> cobs -> Z * PS) pol_reset shuf h k m ps,
+  n <> O -> k = MAll \/ k = MTurn ->
+  er_status (generate_episode (corridor_sim cend n) pmap pol_act pol_reset shuf h k m ps) = EOk /\
+  exists obs, er_reset (generate_episode (corridor_sim cend n) pmap pol_act pol_reset shuf h k m ps)
+              = RObs obs.
+Proof. exact corridor_trainer_never_fails. Qed.
+Print Assumptions C01_corridor_trainer_never_fails.
+
+(* C08 over the corridor.  reset forgets positions, array, reward table and flag: everything but the
+   generator; hence an episode after reset depends on the generator's state only, whatever the
+   manager's and the simulation's past *)
+Theorem C01_corridor_reset_forgets : forall cend n s1 s2, same_seed s1 s2 ->
+  admb cend n (co_draws s1 (co_ep s1)) = true -> co_reset cend n s1 = co_reset cend n s2.
+Proof. exact co_reset_forgets. Qed.
+Print Assumptions C01_corridor_reset_forgets.
+
+Theorem C01_corridor_episode_indistinguishable : forall cend n k m1 m2 cs,
+  n <> O -> k <> MTurnPrefix -> same_seed (m_sim m1) (m_sim m2) ->
+  admb cend n (co_draws (m_sim m1) (co_ep (m_sim m1))) = true ->
+  fst (run (corridor_sim cend n) k m1 (CReset :: cs)) =
+  fst (run (corridor_sim cend n) k m2 (CReset :: cs)).
+Proof. exact corridor_episode_indistinguishable. Qed.
+Print Assumptions C01_corridor_episode_indistinguishable.
+
+(* a manager driven through ANY history h, its simulation then re-seeded, against a new one *)
+Theorem C01_corridor_used_vs_fresh : forall cend n k s0 h cs f j,
+  n <> O -> k <> MTurnPrefix -> admb cend n (f j) = true ->
+  fst (run (corridor_sim cend n) k
+           (m_reseed (snd (run (corridor_sim cend n) k (init s0) h)) f j) (CReset :: cs)) =
+  fst (run (corridor_sim cend n) k (init (reseed s0 f j)) (CReset :: cs)).
+Proof. exact corridor_used_vs_fresh. Qed.
+Print Assumptions C01_corridor_used_vs_fresh.
+
+(* the C08 stack theorems over the corridor: managers over SuperAgentWrapper / Communication-
+   HandshakeWrapper / any stack of Ravel and Flatten wrappers / all three, for ANY two
+   manager-over-stack states (done_agents, pointer, wrapper flags, message tables, positions,
+   rewards arbitrary) whose innermost generators are in the same state: the inner-reset hypothesis
+   of C08_stack_used_vs_fresh_* is discharged by C01_corridor_reset_forgets *)
+Theorem C01_corridor_stack_super : forall cend n mapping k (m1 m2 : mstate (wst cstate Z)) cs,
+  mgr_ok (corr_super cend n mapping) k ->
+  same_seed (w_sim (m_sim m1)) (w_sim (m_sim m2)) ->
+  admb cend n (co_draws (w_sim (m_sim m1)) (co_ep (w_sim (m_sim m1)))) = true ->
+  fst (run (corr_super cend n mapping) k m1 (CReset :: cs)) =
+  fst (run (corr_super cend n mapping) k m2 (CReset :: cs)).
+Proof. exact corridor_stack_super. Qed.
+Print Assumptions C01_corridor_stack_super.
+
+Theorem C01_corridor_stack_comm : forall cend n k (m1 m2 : mstate (cst cstate Z)) cs,
+  mgr_ok (corr_comm cend n) k ->
+  same_seed (c_sim (m_sim m1)) (c_sim (m_sim m2)) ->
+  admb cend n (co_draws (c_sim (m_sim m1)) (co_ep (c_sim (m_sim m1)))) = true ->
+  fst (run (corr_comm cend n) k m1 (CReset :: cs)) = fst (run (corr_comm cend n) k m2 (CReset :: cs)).
+Proof. exact corridor_stack_comm. Qed.
+Print Assumptions C01_corridor_stack_comm.
+
+Theorem C01_corridor_stack_sar : forall cend n ks k (m1 m2 : mstate cstate) cs,
+  mgr_ok (corr_sar cend n ks) k ->
+  same_seed (m_sim m1) (m_sim m2) ->
+  admb cend n (co_draws (m_sim m1) (co_ep (m_sim m1))) = true ->
+  fst (run (corr_sar cend n ks) k m1 (CReset :: cs)) = fst (run (corr_sar cend n ks) k m2 (CReset :: cs)).
+Proof. exact corridor_stack_sar. Qed.
+Print Assumptions C01_corridor_stack_sar.
+
+Theorem C01_corridor_stack_deep : forall cend n ks mapping k
+  (m1 m2 : mstate (wst (cst cstate upoint) (cact upoint))) cs,
+  mgr_ok (corr_deep cend n ks mapping) k ->
+  same_seed (c_sim (w_sim (m_sim m1))) (c_sim (w_sim (m_sim m2))) ->
+  admb cend n (co_draws (c_sim (w_sim (m_sim m1))) (co_ep (c_sim (w_sim (m_sim m1))))) = true ->
+  fst (run (corr_deep cend n ks mapping) k m1 (CReset :: cs)) =
+  fst (run (corr_deep cend n ks mapping) k m2 (CReset :: cs)).
+Proof. exact corridor_stack_deep. Qed.
+Print Assumptions C01_corridor_stack_deep.
+
+Theorem C01_corridor_stack_super_used_vs_fresh : forall cend n mapping k (w0 : wst cstate Z) h cs f j,
+  mgr_ok (corr_super cend n mapping) k -> admb cend n (f j) = true ->
+  fst (run (corr_super cend n mapping) k
+           (mw_reseed (snd (run (corr_super cend n mapping) k (init w0) h)) f j) (CReset :: cs)) =
+  fst (run (corr_super cend n mapping) k (init (w_reseed w0 f j)) (CReset :: cs)).
+Proof. exact corridor_stack_super_used_vs_fresh. Qed.
+Print Assumptions C01_corridor_stack_super_used_vs_fresh.
+
+(* get_done is pure on every level of the stacks, so the C01 / C07 manager theorems apply to them;
+   e.g. no agent of the three-layer stack is reported done twice in an episode *)
+Theorem C01_corridor_stack_done_stable : forall cend n mapping ks,
+  done_stable (corr_super cend n mapping) /\ done_stable (corr_comm cend n) /\
+  done_stable (corr_sar cend n ks) /\ done_stable (corr_deep cend n ks mapping).
+Proof. exact corridor_stack_done_stable. Qed.
+Print Assumptions C01_corridor_stack_done_stable.
+
+Theorem C01_corridor_deep_done_once_turn : forall cend n ks mapping w0 cs,
+  in_protocol (trace (corr_deep cend n ks mapping) MTurn (init w0) Fresh cs) ->
+  NoDup (ep_dones (trace (corr_deep cend n ks mapping) MTurn (init w0) Fresh cs) []).
+Proof. exact corridor_deep_done_once_turn. Qed.
+Print Assumptions C01_corridor_deep_done_once_turn.
+
+(* non-vacuity: end = 5, three agents drawn onto cells 1, 2, 3.  All-step: agent0 stays (-1), agent1
+   moves RIGHT into agent2 (-5, agent2 -2), agent2 moves RIGHT onto the last cell (+25): reported done
+   with 25 - 2 = 23 and taken off the array; then agent0 bumps into agent1 (-5 / -2) and agent1 moves
+   on (-1): -3.  Turn-based: penalties are delivered on the offended agent's own turn; agent2 arrives
+   on its turn and is reported done, with its 25, when the cycle comes back to it.  Both histories
+   are in protocol and polite, all draws admissible. *)
+Example C01_corridor_nonvacuous :
+  let S := corridor_sim 5 3 in
+  (forall j, admb 5 3 (co_draws nv_s0 j) = true) /\ co_bad nv_s0 = false /\
+  in_protocol (trace S MAll (init nv_s0) Fresh Corridor_proofs.nv_cs) /\
+  polite [] (trace S MAll (init nv_s0) Fresh Corridor_proofs.nv_cs) /\
+  fst (run S MAll (init nv_s0) Corridor_proofs.nv_cs) =
+    [RObs [(0%nat, mkobs 1 0 1); (1%nat, mkobs 2 1 1); (2%nat, mkobs 3 1 0)];
+     ROut {| o_obs := [(0%nat, mkobs 1 0 1); (1%nat, mkobs 2 1 0); (2%nat, mkobs 4 0 0)];
+             o_rew := [(0%nat, -1); (1%nat, -5); (2%nat, 23)];
+             o_done := [(0%nat, false); (1%nat, false); (2%nat, true)];
+             o_info := [(0%nat, tt); (1%nat, tt); (2%nat, tt)]; o_all := false |};
+     ROut {| o_obs := [(0%nat, mkobs 1 0 0); (1%nat, mkobs 3 0 0)];
+             o_rew := [(0%nat, -5); (1%nat, -3)];
+             o_done := [(0%nat, false); (1%nat, false)];
+             o_info := [(0%nat, tt); (1%nat, tt)]; o_all := false |}] /\
+  map snd (fst (run_snap S (fun s => s) MAll (init nv_s0) Corridor_proofs.nv_cs)) =
+    [{| sn_pos := [1; 2; 3]; sn_arr := [None; Some 0%nat; Some 1%nat; Some 2%nat; None];
+        sn_rew := [0; 0; 0]; sn_bad := false |};
+     {| sn_pos := [1; 2; 4]; sn_arr := [None; Some 0%nat; Some 1%nat; None; None];
+        sn_rew := [0; 0; 0]; sn_bad := false |};
+     {| sn_pos := [1; 3; 4]; sn_arr := [None; Some 0%nat; None; Some 1%nat; None];
+        sn_rew := [0; 0; 0]; sn_bad := false |}] /\
+  m_done (snd (run S MAll (init nv_s0) Corridor_proofs.nv_cs)) = [2%nat] /\
+  in_protocol (trace S MTurn (init nv_s0) Fresh nv_cs_turn) /\
+  polite [] (trace S MTurn (init nv_s0) Fresh nv_cs_turn) /\
+  fst (run S MTurn (init nv_s0) nv_cs_turn) =
+    [RObs [(0%nat, mkobs 1 0 1)];
+     mkout1 1 (mkobs 2 1 1) (-2) false; mkout1 2 (mkobs 3 1 0) (-2) false;
+     mkout1 0 (mkobs 1 0 1) (-5) false; mkout1 1 (mkobs 2 1 0) (-5) false;
+     ROut {| o_obs := [(2%nat, mkobs 4 1 0); (0%nat, mkobs 1 0 0)];
+             o_rew := [(2%nat, 25); (0%nat, -1)];
+             o_done := [(2%nat, true); (0%nat, false)];
+             o_info := [(2%nat, tt); (0%nat, tt)]; o_all := false |}].
+Proof. exact corridor_nonvacuous. Qed.
